@@ -71,6 +71,25 @@ for _k in ("single", "list", "mixed", "choice"):
                 _pid, _cls = make_holder(_k, _n, _t, _a)
                 HOLDERS[_pid] = _cls
 
+# holder classes the context finds by element qname (find_type), used below other holders
+NESTED = {}
+for _name, _kind, _amap in (("nl", "list", False), ("nm", "mixed", False), ("ns", "single", False), ("na", "list", True)):
+    _fields = []
+    if _amap:
+        _fields.append(("attrs", Dict[str, str],
+                        field(default_factory=dict, metadata={"type": "Attributes", "namespace": "##any"})))
+    if _kind == "single":
+        _fields.append(("w", Optional[object], field(default=None, metadata={"type": "Wildcard", "namespace": "##any"})))
+    else:
+        _md = {"type": "Wildcard", "namespace": "##any"}
+        if _kind == "mixed":
+            _md["mixed"] = True
+        _fields.append(("w", List[object], field(default_factory=list, metadata=_md)))
+    _cls = dataclasses.make_dataclass("Nested_" + _name, _fields, namespace={"Meta": type("Meta", (), {"name": _name})},
+                                      module=__name__)
+    globals()[_cls.__name__] = _cls
+    NESTED[_name] = (_cls, _kind, _amap)
+
 CTX = XmlContext()
 
 
@@ -90,6 +109,13 @@ def placement_info():
         out[pid] = {"rq": meta.qname, "nss": list(var.namespaces), "vq": var.qname, "typed": typed,
                     "list": bool(lst), "mixed": bool(var.mixed), "nillable": bool(var.nillable),
                     "process_contents": var.process_contents, "any_attrs": len(meta.any_attributes)}
+    reg = []
+    for name, (cls, kind, amap) in NESTED.items():
+        meta = CTX.build(cls)
+        var = meta.wildcards[0]
+        reg.append({"rq": meta.qname, "kind": kind, "nss": list(var.namespaces), "vq": var.qname, "amap": amap, "typed": [],
+                    "found": CTX.find_type(meta.qname) is cls, "nillable": bool(var.nillable or meta.nillable)})
+    out["__registry__"] = reg
     return out
 
 
@@ -239,7 +265,18 @@ def exp_val(v):
         return {"t": "d", "q": v.qname, "v": p}
     if v is None or isinstance(v, str):
         return {"t": "s", "v": v}
+    for name, (cls, kind, amap) in NESTED.items():
+        if type(v) is cls:
+            return {"t": "h", "c": name, "a": [[k, x] for k, x in getattr(v, "attrs", {}).items()], "w": exp_w(v.w)}
     return {"t": "other", "r": repr(v)[:120]}
+
+
+def exp_w(w):
+    if isinstance(w, (list, tuple)):
+        return {"many": [exp_val(x) for x in w]}
+    if w is None:
+        return {"none": True}
+    return {"one": exp_val(w)}
 
 
 def exp_events(evs):
@@ -292,14 +329,7 @@ def run_one(b, handler, pid):
                 res["parse"] = {"tree": exp_val(obj)}
             else:
                 obj = XmlParser(handler=HANDLERS[handler], context=CTX).from_bytes(b, HOLDERS[pid])
-                w = obj.w
-                if isinstance(w, (list, tuple)):
-                    wv = {"many": [exp_val(x) for x in w]}
-                elif w is None:
-                    wv = {"none": True}
-                else:
-                    wv = {"one": exp_val(w)}
-                res["parse"] = {"obj": {"attrs": [[k, v] for k, v in getattr(obj, "attrs", {}).items()], "w": wv}}
+                res["parse"] = {"obj": {"attrs": [[k, v] for k, v in getattr(obj, "attrs", {}).items()], "w": exp_w(obj.w)}}
         except Exception as ex:
             res["parse"] = {"err": type(ex).__name__, "msg": str(ex)[:160]}
             res["warnings"] = [str(w.message)[:100] for w in wlist][:4]
